@@ -26,6 +26,8 @@ TARGETS = ["abc", "hello world", "a", "", "héllo", "€uro", "😀", "x1y2", "1
            "name=Bartholomew Fitzgerald Montgomery-Smythe", "x" * 100, "ab" * 130,
            # single characters reached by iteration / indexing whose code points agree in their low bits (a cache of
            # one-character strings keyed by a truncated code point would mix them up)
+           # line breaks and tabs, written raw inside the literal as well as escaped
+           "two\nline\nbreaks", "\nleading", "trailing\n", "\n", "tab\tand\nbreak in one text that is longer than thirty-two bytes", "a\n\nb",
            "года 2024", "2024 года", "αβγ abc", "аa\u0161a", "\u0100\u0200\u0300\u0400 AB", "\u0430\u0030\u0530\u0130", "中文 -e"]
 
 
@@ -54,6 +56,12 @@ def routes_program(rng, target, njunk):
     r = rng
     s = target
     L = ["var base = %s;" % lit(s), "var routes = [];", "routes.push(%s);" % lit(s), "routes.push(%s);" % esc_form(s)]
+    if "\n" in s or "\t" in s:
+        # the same text with its line breaks and tabs written raw inside the literal (the literal spans several source lines),
+        # alone and as the literal parts of an interpolation
+        raw = '"' + s.replace("\\", "\\\\").replace('"', '\\"').replace("$", "\\$") + '"'
+        L.append("routes.push(%s);" % raw)
+        L.append("var empty_part = \"\"; routes.push(\"${empty_part}%s\");" % raw[1:-1])
     cut = r.range(0, len(s))
     a, b = s[:cut], s[cut:]
     L.append("var part_a = %s; var part_b = %s;" % (lit(a), lit(b)))
@@ -189,6 +197,62 @@ def run(tier):
         p["model_steps"] = [p["steps"][0]]
     checked, discarded = check_with_intern(ck, plist, seen)
     ck.coverage["route_programs_checked"] = checked
+    # ---- (c) compilations that fail after having interned many new strings (a snippet with a syntax error at its end, an
+    # import of a module that does not compile, caught by the program), at every fill level of the table: afterwards every
+    # older string built again by another route is still the one object (==, map lookup, host identity, live-table audit)
+    hplist = []
+    r3 = rng.fork("failedcompile")
+    for i in range(160 if quick else 4000):
+        r = r3.fork(str(i))
+        n_old = r.choice([5, 40, 90, 150, 180, 250, 330, 400, 700])
+        n_new = r.choice([30, 100, 200, 260, 400, 600, 1100])
+        tag = "%x" % (r.next() & 0xFFFFF)
+        olds = ["o%d_%s" % (k, tag) for k in range(n_old)]
+        first = "var olds = [%s];\nvar m = {}; for o in olds { m.insert(o, o.len()); }\nvar probe = olds[0];\nprint(olds.len());\n" % ", ".join('"%s"' % o for o in olds)
+        news = ", ".join('"n%d_%s_%d"' % (k, tag, i) for k in range(n_new))
+        idents = " ".join("var id%d_%s = %d;" % (k, tag, k) for k in range(min(n_new, 300)))
+        bad_src = "var news = [%s];\n%s\nvar broken = ;\n" % (news, idents)
+        recheck = ("var same = 0; var found = 0; var k = 0;\nwhile k < olds.len() { var again = \"o\" + String.from(k) + \"_%s\"; if again == olds[k] { same += 1; } "
+                   "if m.get(again) == again.len() { found += 1; } k += 1; }\nprint(same); print(found); print(m.len());\n"
+                   "var m2 = {}; for o in olds { m2.insert(o + \"\", 1); m2.insert(\"${o}\", 2); } print(m2.len());\n" % tag)
+        how = r.below(3)
+        if how == 0:
+            steps = [("snip", first), ("snip", bad_src), ("snip", recheck), ("intern", olds[0])]
+            mods = []
+        elif how == 1:
+            steps = [("snip", first), ("snip", "try { import \"badmod\" as b; } catch e { print(type(e)); }\n" + recheck), ("intern", olds[0])]
+            mods = [("badmod", bad_src)]
+        else:
+            steps = [("snip", first), ("snip", bad_src), ("snip", "try { import \"badmod\" as b; } catch e { print(type(e)); }\n"),
+                     ("snip", bad_src.replace("n0_", "q0_")), ("snip", recheck), ("intern", olds[0])]
+            mods = [("badmod", bad_src.replace("_%d\"" % i, "_%dm\"" % i))]
+        hplist.append({"name": "failedcompile/%d" % i, "steps": steps, "mods": mods, "natives": True, "globals": [], "budget": 6000000})
+    hmodels = modelcheck.run_models([dict(p, steps=[st for st in p["steps"] if st[0] != "intern"]) for p in hplist])
+    hcases = [mk_case("f%d" % i, p["steps"], {"gc": "never", "natives": 1}, p["mods"]) for i, p in enumerate(hplist)]
+    hres = common.run_batch("hook", hcases, timeout=common.batch_timeout(tier, len(hcases)))
+    for p, m, res in zip(hplist, hmodels, hres):
+        ck.evaluations += 1
+        ck.count("failed_compile_histories")
+        if "abort" in res or common.panics_of(res):
+            ck.violation("FailedCompileHistoryDied", modelcheck.replay_of(p, "hook", str(res.get("abort") or common.panics_of(res))[:2000], m))
+            continue
+        if "view" not in m:
+            ck.inconclusive.append("model could not run %s" % p["name"])
+            continue
+        real_snips = [st for st in res["steps"] if st.get("k") == "snip"]
+        for ms, rs in zip(m["view"], real_snips):
+            problem = modelcheck.compare_step(ms, rs)
+            if problem:
+                ck.violation("ModelMismatch(%s)" % modelcheck.classify(problem), modelcheck.replay_of(p, "hook", problem, m))
+                break
+        st = res["steps"][-1]
+        if st.get("table_audit") != "ok":
+            ck.violation("LiveInternTableAudit", modelcheck.replay_of(p, "hook", "live table audit after a failed compilation: %s" % st.get("table_audit"), m))
+        if not st.get("same") or (st.get("has_probe") and not st.get("probe_same")):
+            ck.violation("HostStringIdentity", modelcheck.replay_of(p, "hook", "host-created string is not the program's string object: %s" % st, m))
+        if st.get("has_probe"):
+            ck.count("failed_compile_host_identity_probes")
+        ck.coverage["max_live_table_entries"] = max(ck.coverage.get("max_live_table_entries", 0), st.get("table_entries", 0))
     # size ladders: string literals and identifiers of every length of a ladder straddling powers of two, each compared with
     # the same text built piecewise at run time (vfpy/gen/feat_scale.py); decided by the reference model
     from ..gen import feat_scale as _scale
